@@ -127,14 +127,17 @@ def gen_legacy(rng, regime):
         c = [float(Fraction(rng.choice([1, 3, 5]), 2 ** rng.randint(0, 3))) for _ in range(3)]
         o = [float(Fraction(rng.randint(-40, 40), 2 ** rng.randint(0, 2))) for _ in range(3)]
     else:
-        sc = 10.0 ** rng.randint(-9, 2)
+        sc = 10.0 ** rng.randint(-9, 0)
         c = [sc * rng.uniform(0.5, 2) for _ in range(3)]
         o = [rng.choice([0.0, 1.0, -30.0]) * sc + 0.5 * cc for cc in c]
     vec = rng.random() < 0.55
+    # a side-car only when no axis has a single point: there the reader's `origin - 0.5e-9` rounds by more than the
+    # region's comparison tolerance (1e-12 of the 1e-9 default cell), which the exact model cannot follow
+    sidecar = rng.choice(["none", "none", "ok", "bad"]) if min(N) > 1 else "none"
     return dict(kind="legacy", regime=regime, N=N, c=c, o=o, vec=vec, comp_blocks=vec and rng.random() < 0.6,
                 defect=rng.choice(["none"] * 6 + ["short", "blank", "alpha", "one-number", "two-numbers", "nonuniform", "no-marker",
                                                   "coords-split", "two-axes"]),
-                sidecar=rng.choice(["none", "none", "ok", "bad"]), trailing_nl=rng.random() < 0.7, sub=rng.getrandbits(32))
+                sidecar=sidecar, trailing_nl=rng.random() < 0.7, sub=rng.getrandbits(32))
 
 
 TAMPERS = ["no-valid", "no-field", "extra-array", "norm-only", "field-first", "labels-mismatch", "dup-like", "valid-values",
@@ -633,12 +636,13 @@ def run_legacy(case, obs):
             fh.write(text)
         sc = None
         if case["sidecar"] != "none" and case["defect"] not in ("two-axes",):
-            cc = [case["c"][a] if N[a] > 1 else 1e-9 for a in range(3)]
-            p1 = [case["o"][a] - 0.5 * cc[a] for a in range(3)]
-            lo = list(p1)
-            hi = [p1[a] + (1 if N[a] > 1 else N[a]) * cc[a] for a in range(3)]
+            # the whole region, computed with the reader's own float operations (exactly the corners it will build)
+            cc = [X[a][1] - X[a][0] if N[a] > 1 else 1e-9 for a in range(3)]
+            p1 = np.subtract([X[a][0] for a in range(3)], np.multiply(cc, 0.5))
+            lo = [float(x) for x in p1]
+            hi = [float(x) for x in np.add(p1, np.multiply(N, cc))]
             if case["sidecar"] == "bad":
-                hi[0] = p1[0] + (N[0] + 2) * cc[0]
+                hi[0] = float(p1[0] + (N[0] + 2) * cc[0])
             sc = {"s1": dict(pmin=lo, pmax=hi, dims=["x", "y", "z"], units=["m", "m", "m"], tolerance_factor=1e-12)}
             with open(path + ".subregions.json", "w") as fh:
                 json.dump(sc, fh)
